@@ -401,7 +401,7 @@ Plan gen_crash(uint64_t seed, const string &prop) {
   int nthreads = r.chance(0.55) ? 1 : (int)r.range(2, 3);
   // C13 flavour (two runs in three): the file-set rules look at the session itself, so make it eventful - several
   // writers filling 64 KiB write buffers while another caller compacts - and spend less on crash images
-  bool c13 = prop == "C13" && r.chance(0.67);
+  bool c13 = prop == "C13" ? r.chance(0.67) : r.chance(0.12); // the other crash campaigns get a share of it as well
   if (c13) { nthreads = (int)r.range(2, 3); p.cfg.wbs = 65536; }
   p.sc = random_sched(r, nthreads > 1);
   p.params["prop"] = prop;
